@@ -2,7 +2,7 @@
 # Runs the repository's own suite with the hook guard OFF (no -tags verif) and
 # compares the passing set with BASELINE.json's stable_pass list.
 . /verif/env.sh
-cd /repo || exit 2
+cd "${REPO_DIR:-/repo}" || exit 2
 out=$(mktemp)
 go test -mod=mod -json -vet=off -count=1 -timeout 25m ./... > "$out" 2>&1
 python3 - "$out" <<'PY'
